@@ -122,7 +122,7 @@ def run(ctx):
     rng = ctx.rng
     reqs, expect = [], []
     for k in range(ctx.budget(30, 600)):
-        variant = rng.choice(["full", "full", "full", "single-slack-resistive", "gen-at-slack"])
+        variant = rng.choice(["full", "full", "full", "single-slack-resistive", "gen-at-slack", "twin-gens-qlim"])
         if variant == "single-slack-resistive":
             # one ext_grid, no gens / xwards, purely resistive bus admittances: the fast single-slack result routine applies
             net = netgen.random_net(rng, kinds=("line", "trafo", "load", "sgen", "switch"), dcline=False, n_ext=1, allow_oos=False)
@@ -135,10 +135,20 @@ def run(ctx):
             net = netgen.random_net(rng, dcline=False, slack_gen=rng.random() < 0.2, n_ext=rng.choice([1, 1, 2]))
             if variant == "gen-at-slack":
                 pp.create_gen(net, int(net.ext_grid.bus.iloc[0]), p_mw=rng.choice([5., 20.]), vm_pu=float(net.ext_grid.vm_pu.iloc[0]))
+            if variant == "twin-gens-qlim":
+                # two generators at one bus that both run into their reactive limits; solved with limits enforced by one of the
+                # solvers (the pypower solvers move limited generators into the bus load one at a time)
+                mvb = [int(b_) for b_ in net.bus.index[(net.bus.vn_kv == 20.) & net.bus.in_service]]
+                gb = rng.choice(mvb[1:] if len(mvb) > 1 else mvb)
+                for _ in range(2):
+                    pp.create_gen(net, gb, rng.choice([0.5, 0.8]), vm_pu=1.04, min_q_mvar=-0.05, max_q_mvar=rng.choice([0.05, 0.1]))
         dc = rng.random() < 0.3
         opts = dict(voltage_depend_loads=(rng.random() < 0.6 and variant != "single-slack-resistive"),
                     numba=(rng.random() < 0.5 or variant == "single-slack-resistive"),
                     trafo_model=rng.choice(["t", "pi"]), calculate_voltage_angles=rng.random() < 0.7)
+        if variant == "twin-gens-qlim":
+            dc = False
+            opts.update(enforce_q_lims=True, voltage_depend_loads=False, algorithm=rng.choice(["nr", "fdbx", "gs", "fdxb"]), max_iteration=1000)
         if dc:
             opts = dict(numba=opts["numba"], trafo_model=opts["trafo_model"], calculate_voltage_angles=opts["calculate_voltage_angles"])
         net_json = pp.to_json(net)
